@@ -348,6 +348,10 @@ def run(res):
                        "detail": res.harness_error[-3000:]}, no_input=True)
         res.coverage.update({"evaluations": 0, "distinct_nontrivial": 0})
         return
+    # the balancer's decisions (which fragments a run moves, and where): real primaryCopies/backupCopies over recording
+    # fragments against Model/Balancer.v
+    import balancerlib
+    nbal = balancerlib.run(res, PID)
     n = 36 if res.tier == "quick" else 240
     scs = []
     for i in range(n):
@@ -479,7 +483,7 @@ def run(res):
         res.violation({"kind": "obligation-broken", "failed": [o["theorem"] for o in broken],
                        "detail": [o.get("detail", o.get("axioms")) for o in broken]}, no_input=True)
     res.coverage.update({
-        "evaluations": len(scs), "distinct_nontrivial": len(scs) - envfail,
+        "evaluations": len(scs) + nbal, "distinct_nontrivial": len(scs) - envfail,
         "rule": "one real cluster per scenario grown from 1-3 members by 1-3 (thorough: 4) joins, R in {1,2}, table 256/512 bytes so that fragments span several tables; "
                 "30-70 keys loaded, overwritten and deleted; after each join: routing push, a burst of puts/deletes/gets through every member and a cluster client BEFORE any "
                 "fragment moved, then single balancer runs of single members (one table per fragment) with bursts in between, then stabilisation (optional) and another "
